@@ -3,6 +3,6 @@ CONSTANTS
   Versions <- VersionsAll
   Family = "raw"
   FullOffsets <- Off0
-  LiteOffsets <- Off1245
+  LiteOffsets <- Off12345
 INVARIANTS TypeOK PExact PIdempotent PCore PIdentity PModule PSanity Emit
 CHECK_DEADLOCK FALSE
